@@ -475,6 +475,13 @@ def g_transform_dispatch(R, tier):
     want = {ast.NamedExpr: "PendingNamedExpr", ast.Name: "PendingName", ast.ListComp: "PendingComp", ast.SetComp: "PendingComp",
             ast.DictComp: "PendingComp", ast.GeneratorExp: "PendingComp", ast.Lambda: "PendingLambda"}
 
+    # the state of the transformer when a node is dispatched: nothing pending, or inside a lambda /
+    # a comprehension of the script (the answer must not depend on it: C08 "at any nesting depth and position")
+    for pending in ("nothing-pending", "inside-a-lambda", "inside-a-comprehension", "inside-a-comprehension-inside-a-lambda"):
+        _dispatch_case(R, E, base if pending == "nothing-pending" else f"{base}[{pending}]", want, pending)
+
+
+def _dispatch_case(R, E, base, want, pending):
     def run(c):
         made = []
         st = {}
@@ -489,6 +496,10 @@ def g_transform_dispatch(R, tier):
         # (a method that uses zero-argument super(), first parameter `me`; C12/zero_argument_super has the other cases)
         nsp = CL.mk_nsp(zero_arg_super_used=True, first_parameter="me")
         tr = m.call_value(E.ExpressionTransformer, nsp)
+        lam = lambda: Opaque("pending-lambda", None, cands=frozenset([E.PendingLambda]), fields=dict(target_names={"p"}))
+        comp = lambda: Opaque("pending-comp", None, cands=frozenset([E.PendingComp]), fields=dict(target_names={"q"}))
+        tr.pending_stack.extend({"nothing-pending": [], "inside-a-lambda": [lam()], "inside-a-comprehension": [comp()],
+                                 "inside-a-comprehension-inside-a-lambda": [lam(), comp()]}[pending])
         node = CL.src("node")
         m.call_value(E.ExpressionTransformer.get_pending, tr, node)
         return dict(made=made, node=node, nsp=nsp)
@@ -514,7 +525,9 @@ def g_transform_dispatch(R, tier):
             exp = want.get(k, "PendingExpr")
             if k in pysem.UNSUPPORTED_EXPRS:
                 R.fail(f"{base}/unsupported-expression-kind-is-rejected/{k.__name__}", f"{k.__name__} is accepted and copied into the output (README: not convertible)",
-                       replay=dict(kind="src", src="def g():\n    yield 1\nr = list(g())\n" if k is not ast.Await else "async def g():\n    await x\n", expect="raises"))
+                       replay=dict(kind="srcs", srcs=["def g():\n    yield 1\nr = list(g())\n", "def g(items):\n    for item in items:\n        cb = lambda v=(yield item): v\nr = list(g([1]))\n",
+                                                      "def g(it):\n    r = [(lambda: (yield from it)) for _ in (0,)]\n    return r\n", "def g(it):\n    return [x for x in (yield it)]\n"]
+                                   if k is not ast.Await else ["async def g():\n    await x\n", "async def g():\n    f = lambda: 0\n    return [await x for x in y]\n"], expect="raises"))
                 continue
             if k is ast.Call:
                 # PEP 3135: `super()` -- a call of the plain name super without arguments -- is the
